@@ -11,7 +11,7 @@ def main(tier: str) -> int:
     slices = U.QUICK_SLICES if tier == "quick" else U.THOROUGH_SLICES
     res = campaign.run_slices(slices, inv=("Good",), timeout=1500 if tier == "thorough" else 400)
     states, trans, cov = slices_summary(run, res, "C03")
-    cases, stats = campaign.writer_campaign(tier, seed + 303, parse_entries=(), n_beh=60 if tier == "quick" else 500)
+    cases, stats = campaign.writer_campaign(tier, seed + 303, parse_entries=(), n_beh=60 if tier == "quick" else 500, rdflib_share=True)
     # the `version` a caller passes to StreamParameters must not produce namespace rows in a version-1 stream (both integrations, three types)
     from .. import impl, terms, tlc, wire  # noqa: PLC0415
     vtraces, vcases = [], []
